@@ -510,7 +510,7 @@ def tree_case(max_nodes=12, max_pre=4):
 
 
 # ---------------------------------------------------------------- G-str
-ALPHABET = list("0123456789") + ["."] + list("xyzabs") + list("+-*/^!=()[]") + [" ", " ", "\t", "sgn", "–", "g", "n", "S", "G", "N", "X", "Sgn", "SGN", "sgn(", "Sgn("]
+ALPHABET = list("0123456789") + ["."] + list("xyzabs") + list("eijp") + list("+-*/^!=()[]") + [" ", " ", "\t", "sgn", "–", "g", "n", "S", "G", "N", "X", "Sgn", "SGN", "sgn(", "Sgn("]
 token_soup = st.lists(st.sampled_from(ALPHABET), max_size=24).map("".join)
 
 
